@@ -307,7 +307,11 @@ impl<'a> ShardCtx<'a> {
         self.shared.heartbeat[self.shard as usize].fetch_add(1, Ordering::Relaxed);
         if let Ok(mut g) = self.shared.current[self.shard as usize].try_lock() {
             g.clear();
+            g.push_str(case.ev.name());
+            g.push_str(" :: ");
             g.push_str(input);
+            g.push_str(" :: placeholder ");
+            g.push_str(&case.ph.enc());
         }
         if let Some(f) = &mut self.journal {
             use std::io::{Seek, SeekFrom, Write};
